@@ -225,27 +225,27 @@ def split_cases(transcript):
 
 
 def canon(lines, keep=None, drop_prefixes=()):
-    """Scope filter: drops S lines (after the caller checked them) and the given prefixes."""
+    """Scope filter.  [keep] may be a predicate (line -> bool) or a transformer (line -> str|None)."""
     res = []
     for l in lines:
         if l.startswith("S "):
             continue
         if any(l.startswith(p) for p in drop_prefixes):
             continue
-        if keep is not None and not keep(l):
-            continue
+        if keep is not None:
+            k = keep(l)
+            if k is False or k is None:
+                continue
+            if isinstance(k, str):
+                l = k
         res.append(l)
     return res
 
 
 def first_diff(a, b):
-    """a = model lines, b = implementation lines.  A model line 'R unspec' (C cast outside its defined
-    domain) matches any result line; differences after it are not attributed (state may diverge)."""
     for i in range(max(len(a), len(b))):
         x = a[i] if i < len(a) else "<missing>"
         y = b[i] if i < len(b) else "<missing>"
-        if x == "R unspec" and y.startswith("R "):
-            return None
         if x != y:
             return i, x, y
     return None
@@ -253,9 +253,16 @@ def first_diff(a, b):
 
 def compare(ml, il, status, line_filter, drop_prefixes):
     """Model vs implementation lines.  Returns None when they agree.  The model's final 'R crash'
-    means: the process dies during that operation."""
-    a = canon(ml, line_filter, drop_prefixes)
-    b = canon(il, line_filter, drop_prefixes)
+    means: the process dies during that operation.  A model line 'R unspec' (a C cast outside its
+    defined domain) ends the comparison of that case: the state may legitimately diverge."""
+    a0 = [l for l in ml if not l.startswith("S ")]
+    b0 = [l for l in il if not l.startswith("S ")]
+    if "R unspec" in a0:
+        k = a0.index("R unspec")
+        a0, b0 = a0[:k], b0[:k]
+        status = "ok"
+    a = canon(a0, line_filter, drop_prefixes)
+    b = canon(b0, line_filter, drop_prefixes)
     if a and a[-1] == "R crash":
         if status != "ok" and b == a[:-1]:
             return None
